@@ -50,6 +50,27 @@ func checkC07(e *Env) {
 		}
 		for k := 0; k < calls; k++ {
 			ops = append(ops, plan.Op{Fn: "new", N: int64(ref.WordCounts[(k+p)%5]), L: int64((k/5 + r.Intn(2)*5) % ref.NLang)})
+			if withIdent && p%3 == 1 && k%2 == 0 {
+				// calls of the other functions in between (bystanders: failing validations,
+				// scripted sources that fail half way, rejected sizes, seeds)
+				l := r.Intn(ref.NLang)
+				ent := r.Bytes(ref.EntSizes[r.Intn(5)])
+				w := e.Model.Words(ent, l)
+				switch (k / 2) % 6 {
+				case 0:
+					ops = append(ops, plan.Op{Fn: "chk", L: int64(l), S: hxs(strings.Join(w[1:], " "))})
+				case 1:
+					ops = append(ops, plan.Op{Fn: "new", L: int64(l), N: int64(len(w)), Src: &plan.Src{Data: hx(ent), Steps: []plan.Step{{N: 3}, {N: 0, E: "custom"}}}})
+				case 2:
+					ops = append(ops, plan.Op{Fn: "chk", L: int64(l), S: hxs(strings.Join(w[:len(w)-1], " ") + " qzx")})
+				case 3:
+					ops = append(ops, plan.Op{Fn: "enc", L: int64(l), E: hx(ent)}, plan.Op{Fn: "new", L: int64(l), N: 13})
+				case 4:
+					ops = append(ops, plan.Op{Fn: "seed", S: hxs(strings.Join(w, "\u3000")), P: hxs("p")})
+				case 5:
+					ops = append(ops, plan.Op{Fn: "new", L: int64(l), N: 24, Src: &plan.Src{Data: hx(ent)}}, plan.Op{Fn: "chk", L: int64(l), S: hxs(strings.Join(w, " "))})
+				}
+			}
 		}
 		for i := range ops {
 			ops[i].I = i
@@ -189,6 +210,9 @@ func checkC07(e *Env) {
 		}
 		var ents [][]byte
 		for i := 1; i < len(res); i++ {
+			if ops[i].Fn != "new" || ops[i].Src != nil || !validCount64(ops[i].N) {
+				continue // a bystander
+			}
 			if ent := judgeSentence(p, &ops[i], &res[i], captured); ent != nil {
 				ents = append(ents, ent)
 			}
